@@ -104,7 +104,7 @@ PLAN = {
     "C20": (["stats", "stats", "load", "mix"], ["Cfg_plain", "Cfg_count", "Cfg_refresh", "Cfg_weightAll"]),
 }
 
-MC_PROPS = ("C03_AsAbsent C03_NoResurrection C03_ClockOnlyKills C06_Causes C07_Justified C10_Get C10_BulkGet "
+MC_PROPS = ("C03_AsAbsent C03_SweepIndependent C03_NoResurrection C03_ClockOnlyKills C06_Causes C07_Justified C10_Get C10_BulkGet "
             "C11_ServeOld C11_RefreshChannel C12_Creating C12_Writing C12_Accessing C12_Override C20_Lookups")
 
 
